@@ -243,13 +243,7 @@ fn collect_field<'a>(
                     .into_iter()
                     .flatten()
                     .collect::<IndexMap<_, _>>();
-                field_def.arguments.iter().for_each(|(name, arg)| {
-                    if let Some(def) = &arg.default_value
-                        && !args.contains_key(name.as_str())
-                    {
-                        args.insert(Name::new(name), def.clone());
-                    }
-                });
+                complete_arguments(schema, &field_def.arguments, &mut args);
                 args
             }));
 
@@ -305,6 +299,67 @@ fn collect_field<'a>(
         }
         .boxed(),
     );
+}
+
+/// Complete the arguments of a field as input coercion requires: arguments that
+/// are not provided take their default value, a single value given for a list
+/// type becomes a list of one item, and input object fields that are not
+/// provided take their default values.
+pub(crate) fn complete_arguments(
+    schema: &Schema,
+    definitions: &IndexMap<String, crate::dynamic::InputValue>,
+    args: &mut IndexMap<Name, Value>,
+) {
+    complete_values(
+        schema,
+        definitions
+            .iter()
+            .map(|(name, def)| (name.as_str(), &def.ty, def.default_value.as_ref())),
+        args,
+    );
+}
+
+/// Like [`complete_arguments`], for definitions given as (name, type, default
+/// value) triples.
+pub(crate) fn complete_values<'a>(
+    schema: &Schema,
+    definitions: impl Iterator<Item = (&'a str, &'a TypeRef, Option<&'a Value>)>,
+    args: &mut IndexMap<Name, Value>,
+) {
+    for (name, ty, default_value) in definitions {
+        match args.get_mut(name) {
+            Some(value) => {
+                let provided = std::mem::take(value);
+                *value = complete_input_value(schema, ty, provided);
+            }
+            None => {
+                if let Some(default_value) = default_value {
+                    args.insert(Name::new(name), default_value.clone());
+                }
+            }
+        }
+    }
+}
+
+fn complete_input_value(schema: &Schema, ty: &TypeRef, value: Value) -> Value {
+    match (ty, value) {
+        (TypeRef::NonNull(ty), value) => complete_input_value(schema, ty, value),
+        (_, Value::Null) => Value::Null,
+        (TypeRef::List(ty), Value::List(items)) => Value::List(
+            items
+                .into_iter()
+                .map(|item| complete_input_value(schema, ty, item))
+                .collect(),
+        ),
+        (TypeRef::List(ty), value) => Value::List(vec![complete_input_value(schema, ty, value)]),
+        (TypeRef::Named(type_name), Value::Object(mut fields)) => {
+            if let Some(Type::InputObject(input_object)) = schema.0.types.get(type_name.as_ref()) {
+                complete_arguments(schema, &input_object.fields, &mut fields);
+            }
+            Value::Object(fields)
+        }
+        (TypeRef::Named(_), value) => value,
+    }
 }
 
 /// Errors raised by resolvers carry no path yet; errors from below already
